@@ -22,6 +22,11 @@ class HarnessError(Exception):
     """Machinery failure (never a verdict about the code under test)."""
 
 
+class Livelock(BaseException):
+    """the manager keeps reading from a connection that is at end-of-stream without ever returning to select(): it serves nobody
+    (raised INSIDE the manager thread by the fake socket, so that run() unwinds like after any other fatal error)"""
+
+
 class WouldBlock(HarnessError):
     pass
 
@@ -96,6 +101,10 @@ class _End:
         while True:
             have = len(self.inbuf)
             if have >= n or (have > 0 and not waitall) or self.fin_in:
+                if have == 0 and self.fin_in:
+                    self.eof_reads = getattr(self, "eof_reads", 0) + 1
+                    if self.eof_reads > 2000:
+                        raise Livelock(f"{self!r}: end of stream read {self.eof_reads} times")
                 k = min(n, have)
                 if not waitall and self.chunk:
                     k = min(k, self.chunk)
@@ -486,7 +495,11 @@ class Net:
             return
         self.cmd = cmd
         self._mgr_sem.release()
-        self._drv_sem.acquire()
+        if not self._drv_sem.acquire(timeout=600):
+            # the manager thread never came back to its select(): it is spinning or blocked for good
+            self.mgr_dead = True
+            self.mgr_exc = Livelock("the manager did not return to select() within 600 s of one loop iteration")
+            self.mgr_tb = "Livelock\n  File \"vio\", line 0, in run\n"
 
     def stop_manager(self):
         if self._mgr_obj is not None:
